@@ -17,7 +17,7 @@ use sha1_smol;
 use std::collections::HashMap;
 use std::convert::{TryFrom, TryInto};
 use std::fs;
-use std::path::{Path, PathBuf};
+use std::path::{Component, Path, PathBuf};
 
 /// Metainfo file (also known as .torrent; see [BEP3](https://www.bittorrent.org/beps/bep_0003.html#metainfo%20files))
 /// describe all data required to find download file/files from peer-to-peer network.
@@ -346,8 +346,20 @@ impl Metainfo {
 
     /// Return vector with information which pieces contain which files.
     pub fn file_piece_ranges(&self) -> Vec<(PathBuf, PiecePos, PiecePos)> {
+        // Names and paths come from the (untrusted) torrent: only their normal components are used,
+        // so nothing absolute and no ".." can lead out of the download directory
+        let sanitize = |path: &String| -> PathBuf {
+            Path::new(path)
+                .components()
+                .filter_map(|component| match component {
+                    Component::Normal(part) => Some(part),
+                    _ => None,
+                })
+                .collect()
+        };
+
         let dir = match self.files.len() > 1 {
-            true => PathBuf::from(&self.name),
+            true => sanitize(&self.name),
             false => PathBuf::new(),
         };
 
@@ -356,7 +368,7 @@ impl Metainfo {
 
         for File { length, path } in self.files.iter() {
             ranges.push((
-                dir.join(path),
+                dir.join(sanitize(path)),
                 self.piece_pos(pos),
                 self.piece_pos(pos + *length as usize),
             ));
